@@ -119,13 +119,13 @@ func honestRabinDKG(t *rapid.T, g kyber.Group, privs []kyber.Scalar, pubs []kybe
 	return out
 }
 
-var c12DKGShares = func(t *rapid.T, g kyber.Group, privs []kyber.Scalar, pubs []kyber.Point, th int) (l, r, r2 []*dks) {
-	if th < 2 || th < len(privs)/2+1 {
+var c12DKGShares = func(t *rapid.T, g kyber.Group, privs []kyber.Scalar, pubs []kyber.Point, tl, tr int) (l, r, r2 []*dks) {
+	if min(tl, tr) < 2 || min(tl, tr) < len(privs)/2+1 {
 		return nil, nil, nil // the DKGs require a majority threshold
 	}
-	l = honestPedersenDKG(t, g, privs, pubs, th, "dkg.long")
-	r = honestRabinDKG(t, g, privs, pubs, th, "dkg.rand")
-	r2 = honestPedersenDKG(t, g, privs, pubs, th, "dkg.rand2")
+	l = honestPedersenDKG(t, g, privs, pubs, tl, "dkg.long")
+	r = honestRabinDKG(t, g, privs, pubs, tr, "dkg.rand")
+	r2 = honestPedersenDKG(t, g, privs, pubs, tr, "dkg.rand2")
 	if l == nil || r == nil || r2 == nil {
 		return nil, nil, nil
 	}
